@@ -368,6 +368,9 @@ Definition ctor_run (tbl : table) (entry : string) (d : dyn) (n : name) (t : tid
   let st := ctor FUEL tbl (cur_default d t) t parg enabled selfv [SInvoke entry] (mkCst d None ORoot None) in
   match c_res st with Some v => set_val (c_d st) n v | None => c_d st end.
 
+Definition row_current : string := "Span::current".
+Definition row_or_current : string := "Span::or_current".
+
 (** which row creates a span: the macro arm / associated function the harness uses for each (how, parent) *)
 Definition new_entry (h : how) (p : parent) : string :=
   match h, p with
